@@ -90,6 +90,11 @@ def run(scn, prefix, keep_trace=False, strict=True):
                     default = ("frame", cn)
                     break
                 if default is None:
+                    for cn in scn.stall:
+                        if w.conns[cn].stalled:
+                            default = ("unstall", cn)
+                            break
+                if default is None:
                     t = loop.next_timer()
                     if t is not None and t._when <= t_end:
                         default = ("timer",)
@@ -122,7 +127,7 @@ def run(scn, prefix, keep_trace=False, strict=True):
                         acts.append(("drop", cn))
                 for cn in scn.stall:
                     c = w.conns[cn]
-                    if c.stalled:
+                    if c.stalled and ("unstall", cn) != default:
                         acts.append(("unstall", cn))
                 if scn.allow_timer_deviation and default != ("timer",):
                     t = loop.next_timer()
